@@ -233,16 +233,47 @@ def inspect(acc, case, m, tag, tmp, do_io):
                           {'exc': repr(ex)[:200], 'after': tag})
 
 
-def check_history(acc, cfg, hosting, cur, hist, tmp):
+def repair_and_rerun(acc, case, m, tmp):
+    """A run was refused because a gear with tooth data takes part in no mating.  The user repairs the model -- the
+    fixed joint that drives that gear is declared again as a gear mating -- builds a new Powertrain and Solver on the
+    same elements and simulates: whatever the refused run left behind, the histories must be consistent again."""
+    from gearpy.powertrain import Powertrain
+    from gearpy.solver import Solver
+    i = len(m.elements) - 1
+    try:
+        sim.declare(m.elements[i - 1], m.elements[i], {'t': 'G', 'eta': 0.9})
+        m.pt = Powertrain(motor=m.elements[0])
+        m.solver = Solver(powertrain=m.pt)
+        m.apply_init()
+        m.run(DT, [DT[0] * 3, 'sec'])
+    except Exception as ex:
+        acc.violation(f'C17/repaired-after-refusal/run-error/{type(ex).__name__}', 'a repaired model simulates', case, {'exc': repr(ex)[:200]})
+        return
+    inspect(acc, dict(case, repaired=True), m, 'refused+repaired+R3', tmp, do_io=True)
+    acc.outcomes[('repaired-after-refusal', 'ok')] += 1
+
+
+def check_history(acc, cfg, hosting, cur, hist, tmp, forgot_load=False):
     spec = make_spec(cfg, hosting, cur)
-    case = {'kind': 'hist', 'cfg': [cfg[0], list(cfg[1]), list(cfg[2])], 'hosting': hosting, 'cur': cur, 'hist': list(hist)}
+    case = {'kind': 'hist', 'cfg': [cfg[0], list(cfg[1]), list(cfg[2])], 'hosting': hosting, 'cur': cur, 'hist': list(hist), 'forgot_load': forgot_load}
     pred = predicted_error(spec)
+    if forgot_load:
+        spec['defer_load'] = True
     try:
         m = sim.Model(spec)
     except Exception as ex:
         acc.violation('C17/build-error', 'configuration builds', case, {'exc': repr(ex)[:200]})
         return
     acc.executions += 1
+    if forgot_load:
+        # the user forgets the external torque: the run is refused (or not); then the load is attached and work goes on
+        try:
+            m.run(DT, [DT[0] * 3, 'sec'])
+        except Exception:
+            acc.outcomes[('run-without-load', 'refused')] += 1
+        else:
+            acc.outcomes[('run-without-load', 'accepted')] += 1
+        m.attach_load()
     for step, e in enumerate(hist):
         try:
             do_event(m, e, controlled=(cur is True))
@@ -251,6 +282,8 @@ def check_history(acc, cfg, hosting, cur, hist, tmp):
             err = (type(ex).__name__, str(ex)[:160])
         if pred is not None and err is not None and err[0] == 'ValueError':
             acc.outcomes[('documented-error', pred)] += 1      # (C09 judges whether the error must be raised)
+            if pred == 'force-without-mating' and step == 0 and cfg[0] == 'spur' and hosting == 3 and not forgot_load:
+                repair_and_rerun(acc, case, m, tmp)
             return
         if err is not None:
             acc.violation(f'C17/event-error/{e}/{err[0]}', 'runs, continuations, stops and resets succeed', case, {'error': err, 'step': step})
@@ -287,6 +320,9 @@ def run_shard(shard, tier):
             for h in hists:
                 check_history(acc, cfg, shard['hosting'], cur, h, tmp)
                 acc.nstates += 1
+                if cur is False and shard['cfg'] % 4 == 1 and h[0] in ('R3', 'RS'):
+                    check_history(acc, cfg, shard['hosting'], cur, h, tmp, forgot_load=True)
+                    acc.nstates += 1
     finally:
         shutil.rmtree(tmp, ignore_errors=True)
     acc.sample({'family': cfg[0], 'data_first(m,b,E|d)': cfg[1], 'data_second': cfg[2], 'hosting': shard['hosting'],
@@ -300,7 +336,7 @@ def replay(case):
         tmp = tempfile.mkdtemp(prefix='gmc_c17_')
         try:
             cfg = (case['cfg'][0], tuple(case['cfg'][1]), tuple(case['cfg'][2]))
-            check_history(acc, cfg, case['hosting'], case['cur'], tuple(case['hist']), tmp)
+            check_history(acc, cfg, case['hosting'], case['cur'], tuple(case['hist']), tmp, forgot_load=case.get('forgot_load', False))
         finally:
             shutil.rmtree(tmp, ignore_errors=True)
         return acc.violations
